@@ -29,4 +29,8 @@ def run(prog, rep):
     # comments / labels reach the file unaltered only if the string writer refuses what does not fit instead of cutting it
     from .c13 import string_write_rules
     rep.attempt(string_write_rules, prog, rep)
+    # a refused add/remove inside a history must leave table and file as they were (C07's path rule for the two primitives)
+    from ..codecs import Codecs as _Codecs
+    from .c07 import path_rules
+    rep.attempt(path_rules, ct, _Codecs(prog), rep, names=("add_block", "remove_block"), include_setters=False, prefix="refusal-leaves-table/")
     rep.not_decided += ["OS write-back after flush() (no fsync is claimed by the property)"]
